@@ -163,13 +163,27 @@ def make_signal(data, cls, rate, start, dask, chunks=None):
     if dask:
         data = da.from_array(data, chunks=chunks or ((max(len(data), 1),) + (1,) * (data.ndim - 1)))
     kw = dict(sample_rate=rate[0] * rate[1], start_time=start, meta={"verif": [1, {"k": "v"}]})
+    # every third signal gets its metadata by attribute assignment after construction with decoy values
+    # (state cached across the public setters would then be stale)
+    global _MAKE_COUNT
+    _MAKE_COUNT += 1
+    assign = _MAKE_COUNT % 3 == 0
     if cls == "BasebandSignal":
         kw["center_freq"] = 1.4 * u.GHz
-        return pb.BasebandSignal(data, **kw)
-    if cls == "DualPolarizationSignal":
+        mk = lambda **k: pb.BasebandSignal(data, **k)    # noqa
+    elif cls == "DualPolarizationSignal":
         kw["center_freq"] = 327 * u.MHz
-        return pb.DualPolarizationSignal(data, pol_type="circular", **kw)
-    return pb.Signal(data, **kw)
+        mk = lambda **k: pb.DualPolarizationSignal(data, pol_type="circular", **k)    # noqa
+    else:
+        mk = lambda **k: pb.Signal(data, **k)    # noqa
+    return common.by_assignment(mk, kw) if assign else mk(**kw)
+
+
+_MAKE_COUNT = 0
+
+
+def _unused():
+    pass
 
 
 def meta_of(s):
